@@ -57,7 +57,8 @@ def handle (args : List String) : String :=
             castOut := pBool (g "cast_out"), tdt := pNat (g "tdt"), scaleCast := pBool (g "scale_cast"),
             mulOrder := pBool (g "mul_order"), innerSwap := pBool (g "inner_swap"), epsConst := pBool (g "eps_const"),
             epsSize := pNat (g "eps_size"), eps := pFloat (g "eps"), axes := pInts (g "axes"), pow := pFloat (g "pow"),
-            powRank := pNat (g "pow_rank"), keepdims := pOptInt (g "keepdims"), noop := pOptInt (g "noop") }
+            powRank := pNat (g "pow_rank"), keepdims := pOptInt (g "keepdims"), noop := pOptInt (g "noop"),
+            xRank := pNat (g "xrank"), scaleRank := pNat (g "srank"), epsRank := pNat (g "epsrank") }
     | "skip" =>
       let leaf (n : String) : E := .leaf n (pShapeD (g n))
       let hb := g "has_bias"
@@ -89,7 +90,7 @@ def handle (args : List String) : String :=
              permOk := pBool (g "perm_ok"), mask := pBool (g "mask"), qs := pScaling (g "q_sc"),
              ks := pScaling (g "k_sc"), qks := pScaling (g "qk_sc") }
     | "mha" =>
-      mha { past := pBool (g "past"), keyT := pBool (g "key_t"), qPermOk := pBool (g "q_perm_ok"), rotary := pBool (g "rotary"),
+      mha { past := pBool (g "past"), keyT := pBool (g "key_t"), qPermOk := pBool (g "q_perm_ok"), rotary := pBool (g "rotary"), rotIl := pInt (g "rot_il"),
             scale := pOptFloat (g "scale"), query := pShapeD (g "query"), key := pShapeD (g "key"),
             value := pShapeD (g "value"), q4 := pShapeD (g "q4"), pastKey := pShapeD (g "past_key"),
             pastValue := pShapeD (g "past_value"), mask := pShape (g "mask") }
